@@ -392,7 +392,11 @@ def _def_loops(ctx, rel, prefix_re, seq, suffix_of, what, expected):
         return
     it, body = hits[0]
     outs = [x for x in body if x[0] == "out"]
-    ok = it[2] == seq and it[7] is None and len(outs) == 2 and outs[0][1] == suffix_of(it[1]) and outs[1][1] == IDX0
+    # `for a in S | map(attribute="alias")` visits S in order, one item each: `a` stands for `v.alias` of the element v of S;
+    # the index is compared in canonical form (jmodel.canon: `loop.index - 1` is `loop.index0`)
+    base, elt = J.elementwise(it[2], it[1]) if it[1][0] == "name" else (it[2], it[1])
+    outs = [("out", J.canon(J.subst_names(o[1], {it[1][1]: elt}) if elt != it[1] else o[1])) + tuple(o[2:]) for o in outs]
+    ok = base == seq and it[7] is None and len(outs) == 2 and outs[0][1] == J.canon(suffix_of(it[1])) and outs[1][1] == IDX0
     ctx.check(ok, "R4", key, (rel, it[5]),
               f"{expected} is paired with loop.index0 over the unfiltered {J.show(seq)}",
               expected=f"for v in {J.show(seq)}: {expected.split('<')[0]}{{{{ {J.show(suffix_of(('name', 'v')))} }}}} {{{{ loop.index0 }}}}",
